@@ -131,10 +131,25 @@ def gen_case(ctx: Ctx, k: int) -> dict[str, Any]:
                 # a chain instead of a cycle: the last one gets a fresh name
                 mapping[sub[-1]] = sub[-1] + "_y"
             ctx.tick("mapping_reuses_default_names")
+    # the sequencer's other options: rename a root by the types of its children, group siblings as concurrent
+    seq_opts: dict[str, Any] = {}
+    if not fanout and r.random() < 0.4:
+        nm = {}
+        for n in names:
+            root = f"{n[:1].upper()}A"
+            nm[n] = {root: {"mapped_event_type": root + "_with_" + r.choice("BCD"),
+                            "child_event_types": [f"{n[:1].upper()}{r.choice('BCD')}"]}}
+        seq_opts["event_name_map_information"] = nm
+        ctx.tick("sequencer_name_map")
+    if not fanout and r.random() < 0.3:
+        seq_opts["async_event_groups"] = {n: {f"{n[:1].upper()}A": {f"{n[:1].upper()}B": "g", f"{n[:1].upper()}C": "g"}}
+                                          for n in names}
+        ctx.tick("sequencer_groups")
     ctx.tick("mapping_custom" if custom else "mapping_default")
     ctx.tick("async" if async_flag else "sync")
     ctx.tick("kind_reorder_or_fanout" if reorder else "kind_alternatives")
-    return {"names": names, "spans": spans, "async": async_flag, "mapping": mapping, "k": k, "reorder": reorder}
+    return {"names": names, "spans": spans, "async": async_flag, "mapping": mapping, "k": k, "reorder": reorder,
+            "seq_opts": seq_opts}
 
 
 def write_inputs(tmp: str, case: dict[str, Any]) -> dict[str, str]:
@@ -147,7 +162,7 @@ def write_inputs(tmp: str, case: dict[str, Any]) -> dict[str, str]:
         "data_holders": {"sql": {"db_uri": "sqlite:///:memory:", "batch_size": 7, "time_buffer": 0}},
         "data_sources": {"json": {"dirpath": os.path.join(d, "data"), "filepath": None, "json_per_line": False,
                                   "jq_query": ".spans", "field_mapping": None}},
-        "sequencer": {"async_flag": case["async"]},
+        "sequencer": {"async_flag": case["async"], **case.get("seq_opts", {})},
     }
     with open(os.path.join(d, "config.yaml"), "w") as f:
         yaml.safe_dump(cfg, f)
@@ -334,7 +349,7 @@ def run(ctx: Ctx) -> None:
                      if ctx.cov["evaluations"] % 7 == 0 else None)
             if c["bad"]:
                 ctx.violation(c["bad"], {"input": {"spans": c["spans"], "names": c["names"], "mapping": c["mapping"],
-                                                   "async": c["async"]}})
+                                                   "async": c["async"], "sequencer": c.get("seq_opts")}})
     finally:
         shutil.rmtree(tmp, ignore_errors=True)
     ctx.assumptions += [
